@@ -44,6 +44,9 @@ def formats_agree_bounded(seed):
         ('alpha beta\ngamma delta.\n', False),
         ('Gr\u00f6\u00dfe alpha\n  beta\\footnote{gamma delta} epsilon.\n', False),
         ('alpha % comment\n   beta \\textbf{gamma}\n\ndelta\n', False),
+        # lines of a LaTeX file end at \\n only: a form feed, a vertical tab
+        # or U+2028 does not start a new line
+        ('alpha beta\n\x0c\ngamma\u2028delta epsilon\x0bzeta.\n', False),
         ('\\usepackage[german,english]{babel}\nalpha beta '
          '\\foreignlanguage{german}{gamma delta epsilon zeta eta} theta.\n'
          '\n\\selectlanguage{german}\niota kappa.\n', True),
